@@ -293,32 +293,34 @@ def rule_V4(ctx):
 
 
 def rule_R9(ctx):
-    ctx.begin("R9", floor=3, what="parser/emitter/matcher agreements in regex.c")
+    ctx.begin("R9", floor=2, what="parser/emitter/matcher agreements in regex.c")
     prog = ctx.prog
-    # repetition operators handled by rnode_atom must all end a literal run in ratom_read
-    ra = prog.func("rnode_atom", file="regex.c")
-    reps = set()
-    for n in ra.walk():
-        if n["k"] == "bin" and n["op"] == "==" and cval(n["r"]) is not None and "pat" in key(n["l"]):
-            v = cval(n["r"])
-            if chr(v) in "*?+{":
-                reps.add(chr(v))
-    rr = prog.func("ratom_read", file="regex.c")
-    look = None
-    for c in rr.calls("strchr"):
-        a = strip_casts(c["args"][0])
-        if a["k"] == "str" and set(a["v"]) <= set("*?+{") | set():
-            look = a["v"]
-    if look is None:
+    # every repetition operator binds to the last character of a literal run: the parser is
+    # evaluated abstractly on `ab<op>` and the repeated atom must be exactly "b"
+    from .r import _parse_probe, _quantified_literals
+    bad = None
+    n_ok = 0
+    for pat in (b"ab*", b"ab?", b"ab+", b"ab{2}", b"ab{1,2}", b"abc*d"):
+        try:
+            tree, rest, err = _parse_probe(prog, pat)
+        except (Unsupported, OverRead) as e:
+            ctx.inconclusive("ratom_read", "literal run ends before a repetition operator",
+                             "parser not evaluable on %r: %s" % (pat, e))
+            bad = "skip"
+            break
+        lits = _quantified_literals(tree) if isinstance(tree, dict) else None
+        want = [b"c"] if pat == b"abc*d" else [b"b"]
+        if lits != want:
+            bad = (pat, lits)
+            break
+        n_ok += 1
+    if bad is None:
+        ctx.ok("ratom_read", "in ab*, ab?, ab+, ab{2}, ab{1,2}, abc*d the repetition applies to the last "
+               "character only (parser evaluated abstractly)")
+    elif bad != "skip":
         ctx.violation("ratom_read", "literal run ends before a repetition operator",
-                      "no look-ahead for a following repetition operator")
-    elif reps <= set(look):
-        ctx.ok("ratom_read", "look-ahead set %r covers the repetition operators %s" % (look, sorted(reps)))
-    else:
-        ctx.violation("ratom_read", "literal run ends before a repetition operator",
-                      "rnode_atom applies %s to the preceding atom but the literal-run look-ahead %r lacks "
-                      "%s: `ab%s` repeats the whole run instead of the last character" % (
-                          sorted(reps), look, sorted(reps - set(look)), sorted(reps - set(look))[0]))
+                      "in the pattern %r the repeated atom is %s, not the single character before the "
+                      "operator: the whole run is repeated" % (bad[0].decode(), bad[1]))
     # brk_match evaluates a named class with the caller's flags
     bm = prog.func("brk_match", file="regex.c")
     flg = bm.params[2]["name"]
@@ -329,22 +331,7 @@ def rule_R9(ctx):
             ctx.violation("brk_match", "class expansion keeps the flags",
                           "the recursive call passes %s instead of %s: case folding is applied to the "
                           "character but not to the class" % (key(c["args"][2]), flg), bm.loc(c))
-    # marks are reset for every start position
-    rm = prog.func("re_recmatch", file="regex.c")
-    resets = [n for n, lv, op, rhs in stores(rm.body)
-              if lv_field(lv) and lv_field(lv)[1] == "mark" and lv_field(lv)[2] and cval(rhs) == -1]
-    calls = list(rm.calls("re_rec"))
-    if resets and calls and all(rm.cfg.search(rm.cfg.pos(resets[0]), lambda e: e == c["id"]) is not None
-                                for c in calls):
-        lp = enclosing(rm, resets[0]["id"], ("for", "while"))
-        if lp is not None and all(rm.cfg.dominates(flatten_and(lp["c"])[0], c) for c in calls):
-            ctx.ok("re_recmatch", "marks are reset to -1 before every attempt")
-        else:
-            ctx.violation("re_recmatch", "marks reset per start position", "the reset does not precede re_rec")
-    else:
-        ctx.violation("re_recmatch", "marks reset per start position",
-                      "re_recmatch() no longer resets the marks before re_rec(): marks written by a failed "
-                      "attempt at an earlier position leak into the reported groups")
+    # (that the marks are reset for every start position is rule R12)
 
 
 def rule_G4(ctx):
